@@ -289,21 +289,76 @@ def unquote_bindings(repo):
         if not isinstance(v, Partial) or v.func.qualname != "ural.quote.unquote":
             raise AnalysisError("quote.%s is not functools.partial(unquote, ...)" % name)
         out[name] = v
-    # forwarding
-    unq = q.func("unquote").node
-    gen = q.func("_generate_unquoted_parts").node
-    for fn, callee in ((unq, "_generate_unquoted_parts"), (gen, "_unquote_impl")):
-        found = False
+    # forwarding: along every call chain unquote -> ... -> _unquote_impl inside the module, the two parameters
+    # reach the same-named parameters of _unquote_impl unchanged (positional or keyword, through any helper)
+    tracked = ("only_printable", "unsafe")
+
+    def callee_def(name):
+        rec = q.last_binding(name)
+        return rec[1] if rec is not None and rec[0] == "def" else None
+
+    reached = False
+    seen = set()
+    work = [(q.func("unquote").node, {p: p for p in tracked})]
+    while work:
+        fn, local = work.pop()
+        key = (fn.name, tuple(sorted(local.items())))
+        if key in seen:
+            continue
+        seen.add(key)
         for c in walk_no_nested(fn):
-            if isinstance(c, ast.Call) and isinstance(c.func, ast.Name) and c.func.id == callee:
-                found = True
-                kws = {kw.arg: kw.value for kw in c.keywords}
-                for p in ("only_printable", "unsafe"):
-                    v = kws.get(p)
-                    if not (isinstance(v, ast.Name) and v.id == p):
-                        raise AnalysisError("quote.%s does not forward %s unchanged to %s" % (fn.name, p, callee))
-        if not found:
-            raise AnalysisError("quote.%s does not call %s" % (fn.name, callee))
+            if not (isinstance(c, ast.Call) and isinstance(c.func, ast.Name)):
+                continue
+            g = callee_def(c.func.id)
+            if g is None:
+                continue
+            gnames, _ = func_params(g)
+            bound = {}
+            for i, a in enumerate(c.args):
+                if i < len(gnames) and isinstance(a, ast.Name):
+                    bound[gnames[i]] = a.id
+            for kw in c.keywords:
+                if kw.arg is not None and isinstance(kw.value, ast.Name):
+                    bound[kw.arg] = kw.value.id
+            inv = {}
+            for gp, localname in bound.items():
+                for p, ln in local.items():
+                    if ln == localname:
+                        inv[p] = gp
+            if g.name == "_unquote_impl":
+                for p in tracked:
+                    if inv.get(p) != p:
+                        raise AnalysisError("quote.%s does not forward %s unchanged to _unquote_impl" % (fn.name, p))
+                reached = True
+            elif all(p in inv for p in tracked):
+                work.append((g, inv))
+    if not reached:
+        raise AnalysisError("quote.unquote does not reach _unquote_impl with only_printable and unsafe forwarded")
+    return out
+
+
+def reachable_in_module(mod, start):
+    """FunctionDef nodes of `mod` reachable from the function `start` through direct calls by name"""
+    out = []
+    seen = set()
+    work = [start]
+    while work:
+        name = work.pop()
+        if name in seen:
+            continue
+        seen.add(name)
+        rec = mod.last_binding(name)
+        if rec is None or rec[0] != "def":
+            continue
+        out.append(rec[1])
+        for c in walk_no_nested(rec[1]):
+            if isinstance(c, ast.Call) and isinstance(c.func, ast.Name):
+                work.append(c.func.id)
+            # functions handed over as values (callbacks)
+            if isinstance(c, ast.Call):
+                for a in c.args:
+                    if isinstance(a, ast.Name):
+                        work.append(a.id)
     return out
 
 
@@ -429,14 +484,29 @@ def _simplify(t, assume, memo):
     if k == "method":
         return ("method", t[1], s(t[2]), tuple(s(x) for x in t[3]), tuple((kk, s(v)) for kk, v in t[4]))
     if k == "inl":
-        return ("inl", t[1], s(t[2]))
+        body = s(t[2])
+        return body if body[0] == "const" else ("inl", t[1], body)
     if k in ("attr", "item"):
         return (k, s(t[1]), t[2])
     if k in ("binop", "cmp"):
         return (k, t[1], s(t[2]), s(t[3]))
     if k == "bool":
-        parts = tuple(s(x) for x in t[2])
-        return ("bool", t[1], parts)
+        parts = [s(x) for x in t[2]]
+        kept = []
+        for i, part in enumerate(parts):
+            last = i == len(parts) - 1
+            if part[0] == "const" and not last:
+                if t[1] == "and" and not part[1]:
+                    kept.append(part)
+                    break  # `None and ...` is None
+                if t[1] == "or" and part[1]:
+                    kept.append(part)
+                    break
+                continue  # a constant operand that lets the next one decide
+            kept.append(part)
+        if len(kept) == 1:
+            return kept[0]
+        return ("bool", t[1], tuple(kept))
     if k == "not":
         return ("not", s(t[1]))
     if k == "sub":
@@ -511,6 +581,10 @@ def unguarded_paths(t, leaf_pred, node_pred, _memo=None):
             continue
         if leaf_pred(x):
             out.append(x)
+            continue
+        if x[0] == "bool" and x[1] == "and":
+            # `v and f(v)`: the value is f(v), or v itself when v is falsy (None / empty), which needs no transformer
+            stack.append(x[2][-1])
             continue
         if x[0] == "phi":
             # `if v: v = f(v)`: on the other branch v is falsy (None / empty) and needs no transformer
